@@ -40,6 +40,9 @@ type Batch struct {
 type MapOrder struct {
 	Strategy int    `json:"strategy"`
 	Seed     uint64 `json:"seed,omitempty"`
+	// Fields: a reference peer also permutes the order in which it writes the fields of
+	// every message (the wire format prescribes none).
+	Fields bool `json:"fields,omitempty"`
 }
 
 type Dirty struct {
